@@ -65,6 +65,7 @@ class Acc:
         self.fails: dict[str, list[Failure]] = {}
         self.samples: list = []
         self.caps: list[str] = []
+        self.payload: list = []   # free-form per-shard results (e.g. BFS successors); concatenated by merge
 
     def count(self, name: str, n: int = 1) -> None:
         self.counters[name] = self.counters.get(name, 0) + n
@@ -111,6 +112,7 @@ class Acc:
             if len(self.samples) < 12:
                 self.samples.append(s)
         self.caps.extend(other.caps)
+        self.payload.extend(other.payload)
 
     def all_failures(self) -> list[Failure]:
         out = [f for lst in self.fails.values() for f in lst]
